@@ -1,7 +1,74 @@
-import VermouthModel.Proto
-open Proto
+import VermouthModel.C17
+import Generated.C17Tables
+open Proto C17
 
-/-- placeholder driver for C17: replaced when the model is written -/
-def handle (_ : Unit) (_ : List Tok) : Unit × String := ((), "bad-op")
+def atomOf (t : Tok) : Option Atom := do
+  match ← t.list? with
+  | [k, r, v] =>
+    let vv ← (match v with
+      | Tok.none => some none
+      | Tok.int i => if i < 0 then none else some (some i.toNat)
+      | _ => none : Option (Option Nat))
+    pure { key := ← k.int?, res := ← r.nat?, val := vv }
+  | _ => none
+
+def molOf (t : Tok) : Option Mol := do (← t.list?).mapM atomOf
+
+def selMolOf (t : Tok) : Option (Bool × Mol) := do
+  match ← t.list? with
+  | [s, m] => pure ((← s.nat?) != 0, ← molOf m)
+  | _ => none
+
+def encVal : Option Nat → String
+  | some n => encNat n
+  | none => "-"
+
+def encMol (m : Mol) : String := encList (m.map fun a => encVal a.val)
+
+def encErr : Err → String
+  | .valueerror => "valueerror"
+  | .keyerror => "keyerror"
+
+def encChars (o : Option (List Char)) : String :=
+  match o with
+  | some cs => encStr (String.ofList cs)
+  | none => "keyerror"
+
+def handle (_ : Unit) (toks : List Tok) : Unit × String :=
+  let r : Option String :=
+    match toks with
+    | [Tok.str "conv", s] => do
+        let s ← s.str?
+        let a := convertImpl C17Tables.ssCg C17Tables.patterns s.toList
+        let b := convertSpec C17Tables.ssCg s.toList
+        pure ("impl " ++ encChars a ++ " spec " ++ encChars b)
+    | [Tok.str "residues", m] => do
+        let m ← molOf m
+        pure (encList ((residues m).map fun r => encList ((keysOf m r).map encInt)))
+    | [Tok.str "annotmol", m, seq] => do
+        let m ← molOf m
+        let seq ← nats? seq
+        match annotateMol m seq with
+        | .ok m' => pure ("ok " ++ encMol m')
+        | .error e => pure (encErr e)
+    | [Tok.str "annot", sys, seq] => do
+        let sys ← (← sys.list?).mapM selMolOf
+        let seq ← nats? seq
+        match annotateSystem sys seq with
+        | .ok s' => pure ("ok " ++ encList (s'.map fun p => encMol p.2))
+        | .error e => pure (encErr e)
+    | [Tok.str "annotold", sys, seq] => do
+        let sys ← (← sys.list?).mapM selMolOf
+        let seq ← nats? seq
+        match annotateSystemOld sys seq with
+        | .ok s' => pure ("ok " ++ encList (s'.map fun p => encMol p.2))
+        | .error e => pure (encErr e)
+    | [Tok.str "convmol", m] => do
+        let m ← molOf m
+        match convertAnnotation C17Tables.ssCg C17Tables.patterns m with
+        | .ok m' => pure ("ok " ++ encMol m')
+        | .error e => pure (encErr e)
+    | _ => none
+  ((), r.getD "bad-op")
 
 def main : IO Unit := runDriver handle ()
